@@ -953,6 +953,8 @@ class Parser:
                        "simple numeric constant" % exprnode.coord.line)
 
     def _c_div(self, a, b):
+        if b == 0:
+            raise FFIError("division by zero in constant expression")
         result = a // b
         if ((a < 0) ^ (b < 0)) and (a % b) != 0:
             result += 1
